@@ -325,7 +325,7 @@ def sig_from_obs(sig, tag, obs):
         sig.vals[f"{tag}.ctx.{k}"] = v
 
 
-def find_gates(probe, iters=44, max_gates=6):
+def find_gates(probe, iters=80, max_gates=6):
     """thresholds c* in (0, 1] at which the observation of a constant-answer generator changes.
 
     probe(c) -> hashable fingerprint of the call when every scalar rng.random() returns c. The observation is piecewise
